@@ -1,195 +1,129 @@
-import Bardolph.Proofs.ParseTokPrim
-/-! `Spec` for the routines of the parser model, bottom up. -/
+import Bardolph.Proofs.ParseTokRv
+/-! `Spec` for the statement routines of the parser model, bottom up. -/
 namespace Bardolph.ParseTok
 open Bardolph
 
-/-- decompose a `do` block along its binds, tests and matches; closes the primitive leaves and
-those that are instances of the given lemmas -/
-syntax "spec_steps" ("[" term,* "]")? : tactic
-macro_rules
-  | `(tactic| spec_steps) => `(tactic| spec_steps [])
-  | `(tactic| spec_steps [$ts,*]) => `(tactic| repeat' (first
-    | assumption
-    | with_reducible exact Spec.pure _
-    | with_reducible exact spec_getSt
-    | with_reducible exact spec_emit _
-    | with_reducible exact spec_emitTo _ _
-    | with_reducible exact spec_emitList _
-    | with_reducible exact spec_emitListTo _ _
-    | with_reducible exact spec_offset
-    | with_reducible exact spec_patch _ _
-    | with_reducible exact spec_takeInner
-    | with_reducible exact spec_triggerError _
-    | with_reducible exact spec_tokenError _ _
-    | with_reducible exact spec_timeSpecError
-    | with_reducible exact spec_syntaxError
-    | with_reducible exact spec_nextToken
-    | with_reducible exact spec_skipToken
-    | with_reducible exact spec_addVariable _
-    | with_reducible exact spec_addRoutine _ _
-    | with_reducible exact spec_addParam _ _
-    | with_reducible exact Spec.outOfFuel
-    $[| with_reducible exact $ts]*
-    | with_reducible refine Spec.bind ?_ (fun _ => ?_)
-    | with_reducible apply Spec.ite
-    | split
-    | (show Spec _; dsimp only)))
+variable {t : Bool}
 
-theorem spec_ifTrueStart : Spec ifTrueStart := by unfold ifTrueStart; spec_steps
-theorem spec_ifElse (m : Marker) : Spec (ifElse m) := by unfold ifElse; spec_steps
-theorem spec_ifEnd (m : Marker) : Spec (ifEnd m) := by unfold ifEnd; spec_steps
-theorem spec_jumpBack (n : Nat) : Spec (jumpBack n) := by unfold jumpBack; spec_steps
-theorem spec_waitStmt : Spec waitStmt := by unfold waitStmt; spec_steps
-theorem spec_setUnits : Spec setUnits := by unfold setUnits; spec_steps
-
-theorem spec_deliverConst (c d cg) : Spec (deliverConst c d cg) := by
-  unfold deliverConst; spec_steps
-theorem spec_deliverSrc (c d cg) : Spec (deliverSrc c d cg) := by unfold deliverSrc; spec_steps
-
-theorem spec_rvalueValue (u d cg v) : Spec (rvalueValue u d cg v) := by
-  unfold rvalueValue
-  spec_steps [spec_deliverConst _ _ _, spec_deliverSrc _ _ _]
-
-theorem spec_rvalueSimple (dest : Dest) (cg : CG) : Spec (rvalueSimple dest cg) := by
-  unfold rvalueSimple
-  refine Spec.bind spec_getSt (fun s => ?_)
-  refine Spec.bind (by spec_steps) (fun _ => ?_)
-  refine spec_bind_currentConstant (fun v => spec_rvalueValue _ _ _ v) ?_
-  intro st hst hty
-  unfold rvalueValue
-  by_cases hu : s.cur.isMark "-" = true
-  · simp [hu, triggerError]; exact ⟨_, rfl⟩
-  · simp [hu, getSt_bind, hty, tokenError, triggerError]; exact ⟨_, rfl⟩
-
-/-! ## The rvalue family -/
-
-theorem spec_rvFamily : ∀ f,
-    (∀ d cg, Spec (rvalue f d cg)) ∧ (∀ b, Spec (callNamed f b)) ∧
-    (∀ ps, Spec (callParams f ps)) ∧ Spec (expression f) ∧ (∀ p, Spec (climb f p)) ∧
-    (∀ op, Spec (inner f op)) ∧ Spec (atom f) := by
-  intro f
-  induction f with
-  | zero =>
-    refine ⟨?_, ?_, ?_, ?_, ?_, ?_, ?_⟩ <;> intros <;>
-      first
-      | (unfold rvalue; exact Spec.outOfFuel)
-      | (unfold callNamed; exact Spec.outOfFuel)
-      | (unfold callParams; exact Spec.outOfFuel)
-      | (unfold expression; exact Spec.outOfFuel)
-      | (unfold climb; exact Spec.outOfFuel)
-      | (unfold inner; exact Spec.outOfFuel)
-      | (unfold atom; exact Spec.outOfFuel)
-  | succ f ih =>
-    obtain ⟨ihR, ihN, ihP, ihE, ihC, ihI, ihA⟩ := ih
-    refine ⟨?_, ?_, ?_, ?_, ?_, ?_, ?_⟩
-    · intro d cg
-      unfold rvalue
-      spec_steps [spec_rvalueSimple _ _, ihN _]
-    · intro b
-      unfold callNamed
-      spec_steps [ihP _]
-    · intro ps
-      cases ps with
-      | nil => unfold callParams; spec_steps
-      | cons p ps => unfold callParams; spec_steps [ihR _ _, ihP _]
-    · unfold expression; spec_steps [ihC _]
-    · intro p; unfold climb; spec_steps [ihC _, ihI _]
-    · intro op; unfold inner; spec_steps [ihC _, ihI _]
-    · unfold atom; spec_steps [ihR _ _]
-
-theorem spec_rvalueTop (d : Dest) (cg : CG) : Spec (rvalueTop d cg) :=
-  ⟨fun st h => ((spec_rvFamily (rvFuel st)).1 d cg).run st h⟩
-
-theorem spec_callRoutine : Spec callRoutine := by
-  refine ⟨fun st h => ?_⟩
-  unfold callRoutine
-  split
-  · exact Res.Good.after (advance_spec h).2.1
-      (((spec_rvFamily (rvFuel st)).2.1 true).run _ (advance_spec h).2.1.inv)
-  · exact ((spec_rvFamily (rvFuel st)).2.1 false).run st h
-
-theorem inv_of_eq {st st' : St} (h : Inv st) (hc : st'.cur = st.cur) (hr : st'.rest = st.rest)
-    (hg : st'.globals = st.globals) : Inv st' := by
-  have ht : st'.toks = st.toks := by simp [St.toks, hc, hr]
-  exact ⟨by rw [ht]; exact h.toks, by rw [ht]; exact h.lastEof, by rw [hg]; exact h.macros⟩
-
-theorem okPost_of_shape {st st' : St} (h : Inv st) (hc : st'.cur = st.cur)
-    (hr : st'.rest = st.rest) (hg : st'.globals = st.globals) (he : st'.errors = st.errors)
-    (hs : shape st'.loops = shape st.loops) : OkPost st st' := by
-  have ht : st'.toks = st.toks := by simp [St.toks, hc, hr]
-  exact ⟨inv_of_eq h hc hr hg, by rw [ht]; exact List.suffix_refl _, he, hs⟩
+/-- a loop started with fuel `rvFuel`, of rank 0 -/
+theorem spec_loop_wrapper {g : Nat → M α} (hs : ∀ f, Spec false (g f)) (hf : ∀ f, Fin 0 f (g f)) :
+    Spec t (fun st => g (rvFuel st) st) :=
+  ⟨fun st h => ((hs (rvFuel st)).run st h).strengthen
+    (hf (rvFuel st) st h (by unfold rvFuel; omega))⟩
 
 /-! ## Statements without nested statements -/
 
-theorem spec_rangeRegs (a b : Reg) : Spec (rangeRegs a b) := by
+theorem spec_rangeRegs (a b : Reg) : Spec t (rangeRegs a b) := by
   unfold rangeRegs; spec_steps [spec_rvalueTop _ _]
 
-theorem spec_stringToReg (r : Reg) : Spec (stringToReg r) := by
+theorem spec_stringToReg (r : Reg) : Spec t (stringToReg r) := by
   unfold stringToReg; spec_steps
 
-theorem spec_timePatternsMore : ∀ f, Spec (timePatternsMore f) := by
+theorem spec_timePatternsMore : ∀ f, Spec false (timePatternsMore f) := by
   intro f
   induction f with
   | zero => unfold timePatternsMore; exact Spec.outOfFuel
   | succ f ih => unfold timePatternsMore; spec_steps
 
-theorem spec_timePatternsLoop : Spec timePatternsLoop :=
-  ⟨fun st h => (spec_timePatternsMore _).run st h⟩
+theorem fin_timePatternsMore : ∀ f, Fin 0 f (timePatternsMore f) := by
+  intro f
+  induction f with
+  | zero => intro st _ hb; omega
+  | succ f ih =>
+    unfold timePatternsMore
+    refine Fin.of_getSt_bind (fun s hi hb => ?_)
+    by_cases hc : (s.cur.ty == TT.or_) = true
+    · rw [if_pos hc]
+      have hne : s.cur.ty ≠ .eof := by
+        have : s.cur.ty = .or_ := by simpa using hc
+        rw [this]; decide
+      refine fin_strict_step spec_skipToken (fun a s1 e => skipToken_strict hi e hne)
+        (fun _ => ?_) hi hb
+      fin_steps [Fin.call ih (by omega), spec_timePatternsMore f]
+    · rw [if_neg hc]; intro he; cases he
 
-theorem spec_processTimePatterns : Spec processTimePatterns := by
+theorem spec_timePatternsLoop : Spec t timePatternsLoop :=
+  spec_loop_wrapper spec_timePatternsMore fin_timePatternsMore
+
+theorem spec_processTimePatterns : Spec t processTimePatterns := by
   unfold processTimePatterns; spec_steps [spec_timePatternsLoop]
 
-theorem spec_timeStmt : Spec timeStmt := by
+theorem spec_timeStmt : Spec t timeStmt := by
   unfold timeStmt; spec_steps [spec_processTimePatterns, spec_rvalueTop _ _]
 
-theorem spec_getColor : Spec getColor := by unfold getColor; spec_steps [spec_rvalueTop _ _]
-theorem spec_pauseStmt : Spec pauseStmt := by unfold pauseStmt; spec_steps
-theorem spec_breakpointStmt : Spec breakpointStmt := by unfold breakpointStmt; spec_steps
-theorem spec_outRvalue : Spec outRvalue := by unfold outRvalue; spec_steps [spec_rvalueTop _ _]
-theorem spec_printStmt : Spec printStmt := by unfold printStmt; spec_steps [spec_outRvalue]
-theorem spec_printlnStmt : Spec printlnStmt := by unfold printlnStmt; spec_steps [spec_printStmt]
+theorem spec_getColor : Spec t getColor := by unfold getColor; spec_steps [spec_rvalueTop _ _]
+theorem spec_pauseStmt : Spec t pauseStmt := by unfold pauseStmt; spec_steps
+theorem spec_breakpointStmt : Spec t breakpointStmt := by unfold breakpointStmt; spec_steps
+theorem spec_outRvalue : Spec t outRvalue := by unfold outRvalue; spec_steps [spec_rvalueTop _ _]
+theorem spec_printStmt : Spec t printStmt := by unfold printStmt; spec_steps [spec_outRvalue]
+theorem spec_printlnStmt : Spec t printlnStmt := by unfold printlnStmt; spec_steps [spec_printStmt]
 
-theorem spec_outRvalues : ∀ n, Spec (outRvalues n) := by
+theorem spec_outRvalues : ∀ n, Spec t (outRvalues n) := by
   intro n
   induction n with
   | zero => unfold outRvalues; spec_steps
   | succ n ih => unfold outRvalues; spec_steps [spec_outRvalue]
 
-theorem spec_assignment : Spec assignment := by
+theorem spec_assignment : Spec t assignment := by
   unfold assignment; spec_steps [spec_rvalueTop _ _]
 
-theorem spec_returnStmt : Spec returnStmt := by
+theorem spec_returnStmt : Spec t returnStmt := by
   unfold returnStmt; spec_steps [spec_rvalueTop _ _]
 
-theorem spec_markStmt : Spec markStmt := by unfold markStmt; spec_steps [spec_callRoutine]
-theorem spec_allOperand : Spec allOperand := by unfold allOperand; spec_steps
-theorem spec_defaultOperand : Spec defaultOperand := by unfold defaultOperand; spec_steps
-theorem spec_varOperand : Spec varOperand := by unfold varOperand; spec_steps
-theorem spec_zoneRange : Spec zoneRange := by unfold zoneRange; spec_steps [spec_rangeRegs _ _]
-theorem spec_matrixRange (w : String) (a b : Reg) : Spec (matrixRange w a b) := by
+theorem spec_markStmt : Spec t markStmt := by unfold markStmt; spec_steps [spec_callRoutine]
+theorem spec_allOperand : Spec t allOperand := by unfold allOperand; spec_steps
+theorem spec_defaultOperand : Spec t defaultOperand := by unfold defaultOperand; spec_steps
+theorem spec_varOperand : Spec t varOperand := by unfold varOperand; spec_steps
+theorem spec_zoneRange : Spec t zoneRange := by unfold zoneRange; spec_steps [spec_rangeRegs _ _]
+theorem spec_matrixRange (w : String) (a b : Reg) : Spec t (matrixRange w a b) := by
   unfold matrixRange; spec_steps [spec_rangeRegs _ _]
 
-theorem spec_inlineMore : ∀ f r c, Spec (inlineMore f r c) := by
+theorem strict_rangeRegs (a b : Reg) : Strict (rangeRegs a b) := by
+  unfold rangeRegs
+  exact Strict.bind_left (spec_rvalueTop _ _) (strict_rvalueTop _ _)
+    (fun _ => by spec_steps [spec_rvalueTop _ _])
+
+theorem strict_matrixRange (w : String) (a b : Reg) : Strict (matrixRange w a b) := by
+  unfold matrixRange
+  refine Strict.bind_right spec_skipToken (fun _ => Strict.bind_right spec_getSt (fun _ => ?_))
+  exact Strict.ite (Strict.tokenError _ _) (strict_rangeRegs _ _)
+
+theorem spec_inlineMore : ∀ f r c, Spec false (inlineMore f r c) := by
   intro f
   induction f with
   | zero => intro r c; unfold inlineMore; exact Spec.outOfFuel
   | succ f ih => intro r c; unfold inlineMore; spec_steps [spec_matrixRange _ _ _, ih _ _]
 
-theorem spec_inlineLoop : Spec inlineLoop := ⟨fun st h => (spec_inlineMore _ _ _).run st h⟩
-theorem spec_inlineOperand : Spec inlineOperand := by
+theorem fin_inlineMore : ∀ f r c, Fin 0 f (inlineMore f r c) := by
+  intro f
+  induction f with
+  | zero => intro r c st _ hb; omega
+  | succ f ih =>
+    intro r c
+    unfold inlineMore
+    have key : ∀ (w : String) (a b : Reg) (r' c' : Bool), Fin 0 (f + 1) (do
+        matrixRange w a b
+        inlineMore f r' c') := fun w a b r' c' =>
+      Fin.bind_strict (Fin.of_spec (spec_matrixRange _ _ _)) (spec_matrixRange _ _ _)
+        (strict_matrixRange _ _ _) (fun _ => Fin.call (ih _ _) (by omega))
+    fin_steps [key _ _ _ _ _]
+
+theorem spec_inlineLoop : Spec t inlineLoop :=
+  spec_loop_wrapper (fun f => spec_inlineMore f false false) (fun f => fin_inlineMore f false false)
+theorem spec_inlineOperand : Spec t inlineOperand := by
   unfold inlineOperand; spec_steps [spec_inlineLoop]
 
-theorem spec_detectLoopType : Spec detectLoopType := by unfold detectLoopType; spec_steps
+theorem spec_detectLoopType : Spec t detectLoopType := by unfold detectLoopType; spec_steps
 
-theorem spec_orElseFail_tokenError {m : M α} (hm : Spec m) (a b : String) :
-    Spec (orElseFail m (tokenError a b)) := by
+theorem spec_orElseFail_tokenError {m : M α} (hm : Spec t m) (a b : String) :
+    Spec t (orElseFail m (tokenError a b)) := by
   refine ⟨fun st h => ?_⟩
   have h1 := hm.run st h
   unfold orElseFail
   cases hr : m st with
   | ok x s => rw [hr] at h1; exact h1
   | raised k s => rw [hr] at h1; exact h1
-  | oof => trivial
+  | oof => rw [hr] at h1; exact h1
   | fail s =>
     rw [hr] at h1
     show FailPost st (s.addError _)
@@ -202,60 +136,138 @@ theorem spec_orElseFail_tokenError {m : M α} (hm : Spec m) (a b : String) :
       · simp at h2; subst h2
         exact .inr ⟨s.cur, h1.suffix.subset (by simp [St.toks]), rfl⟩
 
-theorem spec_pushLightNames (lt : LoopType) (o : Operand) : Spec (pushLightNames lt o) := by
+theorem spec_pushLightNames (lt : LoopType) (o : Operand) : Spec t (pushLightNames lt o) := by
   unfold pushLightNames
   spec_steps [spec_orElseFail_tokenError (spec_rvalueTop _ _) _ _]
 
-theorem spec_modifyInner : Spec (modifySt fun st => { st with inner := #[] }) :=
+theorem spec_modifyInner : Spec t (modifySt fun st => { st with inner := #[] }) :=
   spec_modifySt_same fun _ => ⟨rfl, rfl, rfl, rfl, rfl⟩
 
-theorem spec_preLoopItem (lt : LoopType) : Spec (preLoopItem lt) := by
+theorem spec_preLoopItem (lt : LoopType) : Spec t (preLoopItem lt) := by
   unfold preLoopItem
   spec_steps [spec_modifyInner, spec_pushLightNames _ _, spec_rvalueTop _ _]
 
-theorem spec_preLoopAnd : Spec preLoopAnd := by unfold preLoopAnd; spec_steps
+theorem spec_preLoopAnd : Spec t preLoopAnd := by unfold preLoopAnd; spec_steps
 
-theorem spec_preLoopList (lt : LoopType) : ∀ f, Spec (preLoopList lt f) := by
+theorem strict_preLoopItem (lt : LoopType) : Strict (preLoopItem lt) := by
+  unfold preLoopItem
+  refine Strict.bind_right spec_modifyInner (fun _ => Strict.of_getSt_bind (fun s a st' hi he => ?_))
+  have hskip : ∀ o, s.cur.ty ≠ .eof → (do skipToken; pushLightNames lt o) s = .ok a st' →
+      st'.rest.length < s.rest.length := by
+    intro o hne he
+    obtain ⟨_, s1, e1, e2⟩ := bind_ok_inv he
+    have l1 := skipToken_strict hi e1 hne
+    have l2 := ok_of_spec (t := false) (spec_pushLightNames lt o)
+      (ok_of_spec (t := false) spec_skipToken hi e1).1 e2
+    omega
+  cases hty : s.cur.ty
+  all_goals rw [hty] at he
+  all_goals dsimp only at he
+  all_goals first
+    | exact Strict.bind_left (spec_rvalueTop _ _) (strict_rvalueTop _ _)
+        (fun _ => spec_emitListTo _ _) s a st' hi he
+    | exact hskip _ (by rw [hty]; decide) he
+
+theorem spec_preLoopList (lt : LoopType) : ∀ f, Spec false (preLoopList lt f) := by
   intro f
   induction f with
   | zero => unfold preLoopList; exact Spec.outOfFuel
   | succ f ih => unfold preLoopList; spec_steps [spec_preLoopItem _, spec_preLoopAnd]
 
-theorem spec_preLoopListTop (lt : LoopType) : Spec (preLoopListTop lt) :=
-  ⟨fun st h => (spec_preLoopList lt _).run st h⟩
+theorem fin_preLoopList (lt : LoopType) : ∀ f, Fin 0 f (preLoopList lt f) := by
+  intro f
+  induction f with
+  | zero => intro st _ hb; omega
+  | succ f ih =>
+    unfold preLoopList
+    refine Fin.bind (Fin.of_spec spec_getSt) spec_getSt (fun st => ?_)
+    refine Fin.ite (Fin.of_spec (Spec.pure _)) ?_
+    refine Fin.bind_strict (Fin.of_spec (spec_preLoopItem _)) (spec_preLoopItem _)
+      (strict_preLoopItem _) (fun _ => ?_)
+    fin_steps [Fin.call ih (by omega), spec_preLoopList lt f, spec_preLoopAnd]
 
-theorem spec_preLoopAs : Spec preLoopAs := by unfold preLoopAs; spec_steps
-theorem spec_calcCounter : Spec calcCounter := by
+theorem spec_preLoopListTop (lt : LoopType) : Spec t (preLoopListTop lt) :=
+  spec_loop_wrapper (spec_preLoopList lt) (fin_preLoopList lt)
+
+theorem spec_preLoopAs : Spec t preLoopAs := by unfold preLoopAs; spec_steps
+theorem spec_calcCounter : Spec t calcCounter := by
   unfold calcCounter; spec_steps [spec_ifTrueStart, spec_ifElse _, spec_ifEnd _]
-theorem spec_calcIncr : Spec calcIncr := by
+theorem spec_calcIncr : Spec t calcIncr := by
   unfold calcIncr; spec_steps [spec_ifTrueStart, spec_ifElse _, spec_ifEnd _]
-theorem spec_indexVarRange (lt : LoopType) (v : String) : Spec (indexVarRange lt v) := by
+theorem spec_indexVarRange (lt : LoopType) (v : String) : Spec t (indexVarRange lt v) := by
   unfold indexVarRange; spec_steps [spec_rvalueTop _ _, spec_calcCounter, spec_calcIncr]
-theorem spec_cycleVarRange (lt : LoopType) (v : String) : Spec (cycleVarRange lt v) := by
+theorem spec_cycleVarRange (lt : LoopType) (v : String) : Spec t (cycleVarRange lt v) := by
   unfold cycleVarRange
   spec_steps [spec_rvalueTop _ _, spec_ifTrueStart, spec_ifElse _, spec_ifEnd _]
-theorem spec_preLoopWith (info : LoopInfo) : Spec (preLoopWith info) := by
+theorem spec_preLoopWith (info : LoopInfo) : Spec t (preLoopWith info) := by
   unfold preLoopWith
   spec_steps [spec_preLoopListTop _, spec_indexVarRange _ _, spec_cycleVarRange _ _]
-theorem spec_preLoop (lt : LoopType) : Spec (preLoop lt) := by
+theorem spec_preLoop (lt : LoopType) : Spec t (preLoop lt) := by
   unfold preLoop
   spec_steps [spec_rvalueTop _ _, spec_preLoopListTop _, spec_preLoopAs, spec_preLoopWith _]
-theorem spec_loopTest (lt : LoopType) : Spec (loopTest lt) := by
+theorem spec_loopTest (lt : LoopType) : Spec t (loopTest lt) := by
   unfold loopTest; spec_steps [spec_rvalueTop _ _]
-theorem spec_loopPost (info : LoopInfo) : Spec (loopPost info) := by
+theorem spec_loopPost (info : LoopInfo) : Spec t (loopPost info) := by
   unfold loopPost; spec_steps
 
-theorem spec_paramDeclMore (r : String) : ∀ f, Spec (paramDeclMore r f) := by
+theorem spec_declParam (r n : String) : Spec t (declParam r n) := by
+  unfold declParam; spec_steps
+
+theorem declParam_strict {r n : String} {st st' : St} {a : Unit} (hi : Inv st)
+    (he : declParam r n st = .ok a st') (hne : st.cur.ty ≠ .eof) :
+    st'.rest.length < st.rest.length := by
+  unfold declParam at he
+  obtain ⟨_, s1, e1, e2⟩ := bind_ok_inv he
+  obtain ⟨_, s2, e3, e4⟩ := bind_ok_inv e2
+  have i1 := ok_of_spec (t := false) (spec_addParam r n) hi e1
+  have i2 := ok_of_spec (t := false) (spec_addVariable n) i1.1 e3
+  have c1 : s1.cur = st.cur ∧ s1.rest = st.rest := by
+    unfold addParam modifySt at e1
+    cases e1
+    dsimp only
+    cases st.getRoutine r <;> exact ⟨rfl, rfl⟩
+  have c2 : s2.cur = s1.cur ∧ s2.rest = s1.rest := by
+    unfold addVariable modifySt at e3
+    cases e3
+    dsimp only
+    cases s1.inRoutine <;> exact ⟨rfl, rfl⟩
+  have := skipToken_strict i2.1 e4 (by rw [c2.1, c1.1]; exact hne)
+  rw [c2.2, c1.2] at this
+  exact this
+
+theorem spec_paramDeclMore (r : String) : ∀ f, Spec false (paramDeclMore r f) := by
   intro f
   induction f with
   | zero => unfold paramDeclMore; exact Spec.outOfFuel
-  | succ f ih => unfold paramDeclMore; spec_steps
-theorem spec_paramDeclLoop (r : String) : Spec (paramDeclLoop r) :=
-  ⟨fun st h => (spec_paramDeclMore r _).run st h⟩
-theorem spec_paramDecl (r : String) : Spec (paramDecl r) := by
-  unfold paramDecl; spec_steps [spec_paramDeclLoop _]
+  | succ f ih => unfold paramDeclMore; spec_steps [spec_declParam _ _]
 
-theorem spec_operandName : Spec operandName := by
+theorem fin_paramDeclMore (r : String) : ∀ f, Fin 0 f (paramDeclMore r f) := by
+  intro f
+  induction f with
+  | zero => intro st _ hb; omega
+  | succ f ih =>
+    unfold paramDeclMore
+    refine Fin.of_getSt_bind (fun s hi hb => ?_)
+    by_cases hc : (s.cur.ty == TT.name && !s.hasRoutine s.cur.str) = true
+    · rw [if_pos hc]
+      have hne : s.cur.ty ≠ .eof := by
+        simp only [Bool.and_eq_true, beq_iff_eq] at hc
+        rw [hc.1]; decide
+      split
+      all_goals dsimp only
+      all_goals split
+      all_goals first
+        | (intro he; cases he; done)
+        | exact fin_strict_step (spec_declParam _ _) (fun a s1 e => declParam_strict hi e hne)
+            (fun _ => Fin.call ih (by omega)) hi hb
+    · rw [if_neg hc]; intro he; cases he
+
+theorem spec_paramDeclLoop (r : String) : Spec t (paramDeclLoop r) :=
+  spec_loop_wrapper (spec_paramDeclMore r) (fin_paramDeclMore r)
+theorem spec_paramDecl (r : String) : Spec t (paramDecl r) := by
+  unfold paramDecl; spec_steps [spec_paramDeclLoop _, spec_declParam _ _]
+
+theorem spec_operandName : Spec t operandName := by
   unfold operandName
   refine spec_bind_currentStr (fun v => ?_) ?_
   · spec_steps [spec_varOperand]
@@ -263,7 +275,7 @@ theorem spec_operandName : Spec operandName := by
     simp [getSt_bind, hty]
     split <;> exact ⟨_, rfl⟩
 
-theorem spec_printfStmt : Spec printfStmt := by
+theorem spec_printfStmt : Spec t printfStmt := by
   unfold printfStmt
   refine Spec.bind spec_skipToken (fun _ => ?_)
   refine spec_bind_currentStr (fun v => ?_) ?_
@@ -273,7 +285,7 @@ theorem spec_printfStmt : Spec printfStmt := by
     exact ⟨_, rfl⟩
 
 theorem spec_macroDefinition (name : String) (hn : nameLike name = true) :
-    Spec (macroDefinition name) := by
+    Spec t (macroDefinition name) := by
   unfold macroDefinition
   refine spec_bind_currentLiteral (fun v => ?_) ?_
   · spec_steps [spec_addMacro _ _ hn]
@@ -300,7 +312,7 @@ theorem spec_macroDefinition (name : String) (hn : nameLike name = true) :
     exact ⟨_, rfl⟩
 
 
-theorem good_setReg {st : St} (h : Inv st) (hty : st.cur.ty = .register) : (setReg st).Good st := by
+theorem good_setReg {st : St} (h : Inv st) (hty : st.cur.ty = .register) : (setReg st).Good t st := by
   unfold setReg
   rw [getSt_bind]
   cases hr : regOfName st.cur.str with
@@ -311,7 +323,7 @@ theorem good_setReg {st : St} (h : Inv st) (hty : st.cur.ty = .register) : (setR
     refine Spec.run ?_ st h
     spec_steps [spec_stringToReg _, spec_rvalueTop _ _, spec_timeStmt]
 
-theorem good_breakStmt {st : St} (h : Inv st) : (breakStmt st).Good st := by
+theorem good_breakStmt {st : St} (h : Inv st) : (breakStmt st).Good t st := by
   unfold breakStmt
   rw [getSt_bind]
   cases hl : st.loops with
@@ -322,23 +334,23 @@ theorem good_breakStmt {st : St} (h : Inv st) : (breakStmt st).Good st := by
     | some l =>
       simp [St.inLoop, hl, bind_run, offset, emit, emitTo, modifySt, addBreak]
       have key : ∀ s1 : St, s1.cur = st.cur → s1.rest = st.rest → s1.globals = st.globals →
-          s1.errors = st.errors → shape s1.loops = shape st.loops → (nextToken s1).Good st :=
+          s1.errors = st.errors → shape s1.loops = shape st.loops → (nextToken s1).Good t st :=
         fun s1 a b c d e => Res.Good.after (okPost_of_shape h a b c d e)
           (spec_nextToken.run s1 (inv_of_eq h a b c))
       exact key _ rfl rfl rfl rfl (by simp [shape, hl])
 
 /-! ## Statements with nested statements -/
 
-theorem spec_repeatBody {body : M Unit} (hb : Spec body) : Spec (repeatBody body) := by
+theorem spec_repeatBody {body : M Unit} (hb : Spec t body) : Spec t (repeatBody body) := by
   unfold repeatBody
   spec_steps [spec_detectLoopType, spec_preLoop _, spec_loopTest _, spec_ifTrueStart,
     spec_loopPost _, spec_jumpBack _, spec_ifEnd _]
 
-theorem spec_routineHead (name : String) (w : Bool) : Spec (routineHead name w) := by
+theorem spec_routineHead (name : String) (w : Bool) : Spec t (routineHead name w) := by
   unfold routineHead; spec_steps [spec_paramDecl _]
 
 theorem goodX_closeLoop {st : St} (h : Inv st) {sh : List Bool}
-    (hs : shape st.loops = true :: sh) : (closeLoop st).GoodX st sh := by
+    (hs : shape st.loops = true :: sh) : (closeLoop st).GoodX t st sh := by
   unfold closeLoop
   cases hl : st.loops with
   | nil => simp [shape, hl] at hs
@@ -360,15 +372,15 @@ theorem shape_resume_false {l : List (Option (List Nat))} {sh : List Bool}
     | some x => simp [shape] at h
     | none => simpa [shape, resumeLoops] using h
 
-theorem spec_routinePart (name : String) (w : Bool) {body : M Unit} (hb : Spec body) :
-    Spec (routinePart name w body) := by
+theorem spec_routinePart (name : String) (w : Bool) {body : M Unit} (hb : Spec t body) :
+    Spec t (routinePart name w body) := by
   refine ⟨fun st h => Res.GoodX.toGood ?_⟩
   unfold routinePart
   refine goodX_bind (sh1 := false :: shape st.loops) ?_ ?_
   · exact ⟨⟨inv_of_eq h rfl rfl rfl, List.suffix_refl _, rfl⟩, rfl⟩
   intro _ s1 h1 hs1
   refine goodX_bind (sh1 := false :: shape st.loops) ?_ ?_
-  · have := ((spec_routineHead name w).run s1 h1.inv).toX
+  · have := ((spec_routineHead (t := t) name w).run s1 h1.inv).toX
     rw [hs1] at this; exact this
   intro _ s2 h2 hs2
   have hbody := hb.run s2 h2.inv
@@ -384,9 +396,9 @@ theorem spec_routinePart (name : String) (w : Bool) {body : M Unit} (hb : Spec b
     rw [hr] at hbody
     exact ⟨hbody.suffix, hbody.errors⟩
   | raised k s3 => rw [hr] at hbody; exact hbody
-  | oof => trivial
+  | oof => rw [hr] at hbody; exact hbody
 
-theorem spec_blockOperand {body : M Unit} (hb : Spec body) : Spec (blockOperand body) := by
+theorem spec_blockOperand {body : M Unit} (hb : Spec t body) : Spec t (blockOperand body) := by
   refine ⟨fun st h => Res.GoodX.toGood ?_⟩
   unfold blockOperand
   refine goodX_bind (sh1 := false :: shape st.loops) ?_ ?_
@@ -399,17 +411,18 @@ theorem spec_blockOperand {body : M Unit} (hb : Spec body) : Spec (blockOperand 
   exact ⟨⟨inv_of_eq h2.inv rfl rfl rfl, List.suffix_refl _, rfl⟩, shape_resume_false hs2⟩
 
 theorem spec_definitionRest (name : String) (hn : nameLike name = true) {body : M Unit}
-    (hb : Spec body) : Spec (definitionRest name body) := by
+    (hb : Spec t body) : Spec t (definitionRest name body) := by
   unfold definitionRest
   spec_steps [spec_routinePart _ _ hb, spec_macroDefinition _ hn]
 
-theorem spec_getSt_bind_pt {f : St → M β} (h : ∀ s, Inv s → (f s s).Good s) :
-    Spec (getSt >>= f) := ⟨fun st hst => by rw [getSt_bind]; exact h st hst⟩
+theorem spec_getSt_bind_pt {f : St → M β} (h : ∀ s, Inv s → (f s s).Good t s) :
+    Spec t (getSt >>= f) := ⟨fun st hst => by rw [getSt_bind]; exact h st hst⟩
 
 theorem spec_stmtFamily : ∀ f,
-    Spec (command f) ∧ Spec (commandSeq f) ∧ Spec (compoundMore f) ∧ Spec (ifStmt f) ∧
-    Spec (repeatStmt f) ∧ Spec (definition f) ∧ (∀ o, Spec (action f o)) ∧
-    (∀ o, Spec (operandThenMore f o)) ∧ Spec (operand f) ∧ Spec (matrixOperandList f) := by
+    Spec false (command f) ∧ Spec false (commandSeq f) ∧ Spec false (compoundMore f) ∧
+    Spec false (ifStmt f) ∧ Spec false (repeatStmt f) ∧ Spec false (definition f) ∧
+    (∀ o, Spec false (action f o)) ∧ (∀ o, Spec false (operandThenMore f o)) ∧
+    Spec false (operand f) ∧ Spec false (matrixOperandList f) := by
   intro f
   induction f with
   | zero =>
